@@ -25,9 +25,10 @@ def tlines(s): return [chomp(x) for x in s.splitlines(True)]
 def marker_of(c, x): return x.startswith(c * 7) and (len(x) == 7 or x[7] == ' ')
 def is_marker(x): return any(marker_of(c, x) for c in '<=>|')
 CELL_MARK = re.compile(r'^<span style="color:red"><b>(.*)</b></span>$')
+TAG = re.compile(r'</?[A-Za-z][^<>]*>')
 def is_marker_line(x):
-    m = CELL_MARK.match(x)
-    return is_marker(m.group(1) if m else x)
+    """a conflict marker line, possibly dressed up in HTML tags (the marker cells of inline-cells)"""
+    return is_marker(x) or is_marker(TAG.sub('', x).strip())
 
 def branches(ls):
     z = 'O'; lo = []; re_ = []
@@ -91,7 +92,7 @@ def merge_problems(case, msrc, conflicts):
         lb, rb = byid(local), byid(remote)
         for c in base['cells']:
             cid = c.get('id')
-            if cid in lb and cid in rb:
+            if cid in lb and cid in rb and c.get('cell_type') == lb[cid].get('cell_type') == rb[cid].get('cell_type'):
                 for x, y in clashes(src_text(c), src_text(lb[cid]), src_text(rb[cid])):
                     if not conflicts: probs.append(['unflagged', cid, x, y])
                     if not any(x in branches(ls)[0] and y in branches(ls)[1] for ls in mlines): probs.append(['variant-missing', cid, x, y])
@@ -562,21 +563,25 @@ def replay(path):
     if body.get('kind') == 'broken-obligation':
         print(json.dumps(body['obligations'], indent=1)[:3000]); return 1
     case = body['case']; cfg = case.get('config', 'git')
+    known = {f.get('signature') for f in core.load_findings() if f.get('property') == PROP and f.get('status') == 'known'}
     sb = Sandbox()
     try:
         if 'render' in case:
             t = case['render']
             res = core.run_impl([{'op': 'render', 'b': t['b'], 'l': t['l'], 'r': t['r']}], shards=1, script=RUNNER, env_extra=sb.env(cfg))[0]
-            probs = contract(t['b'], t['l'], t['r'], res['ok'][0], res['ok'][1]) if 'ok' in res else [['error', res]]
-            print(json.dumps({'config': cfg, 'impl': res, 'problems': probs}, indent=1)[:3000])
-            bad = bool(probs)
+            if 'ok' in res:
+                probs = contract(t['b'], t['l'], t['r'], res['ok'][0], res['ok'][1])
+                sig = contract_signature(t['b'], t['l'], t['r'], res['ok'][0], res['ok'][1], cfg, probs) if probs else None
+            else:
+                probs = [['error', res]]; sig = 'tool-call-raises:' + str(res.get('err'))
+            print(json.dumps({'config': cfg, 'impl': res, 'problems': probs, 'signature': sig}, indent=1)[:3000])
         else:
             res = core.run_impl([dict(case, op='merge')], shards=1, script=RUNNER, env_extra=sb.env(cfg))[0]
             sig, detail = judge_merge(case, res)
             print(json.dumps({'config': cfg, 'signature': sig, 'detail': detail}, indent=1, default=str)[:4000])
-            bad = sig is not None
     finally:
         sb.close()
-    if bad:
-        print('VIOLATION property=%s replay=%s' % (PROP, path)); return 1
-    return 0
+    if sig is None: return 0
+    if sig in known:
+        print('KNOWN-FINDING: property=%s %s' % (PROP, sig)); return 0
+    print('VIOLATION property=%s replay=%s' % (PROP, path)); return 1
